@@ -105,6 +105,10 @@ impl<'a> Case<'a> {
     /// ROOT layout (`root: 1`): no project directory -- the entry is `src/main.lua` and the modules are `a.lua`, `b.lua` ...
     /// directly at the root of the resources, so that a module has NO parent directory (a file is then located as
     /// `a.lua` from `src/` and as `./a.lua` from a sibling)
+    /// aliases through `.luaurc`: proj/.luaurc maps `lib` to ./src (never in the ROOT layout nor with twins)
+    fn rc(&self) -> bool {
+        self.c["rc"] == json!(1) && !self.root() && self.twin().is_none()
+    }
     fn root(&self) -> bool {
         self.c["root"] == json!(1) && self.twin().is_none()
     }
@@ -153,6 +157,9 @@ impl<'a> Case<'a> {
             return format!("{}{}", rel, stem); // one spelling only: the exclusion pattern / the error text names it
         }
         let name = if data { full.clone() } else { stem.to_string() };
+        if self.rc() && sp % 4 == 2 {
+            return format!("@lib/{}{}", if to_sub { "sub/" } else { "" }, name);
+        }
         match sp % 4 {
             0 => format!("{}{}", rel, name),
             1 => format!("{}{}", rel, full),
@@ -467,9 +474,10 @@ fn luaparse_latin1(s: &str) -> String {
 }
 
 fn config_text(case: &Case, excludes: &[String]) -> String {
+    let rc = case.rc();
     let mode = match case.c["mode"].as_str().unwrap_or("path") {
-        "luau" => "{ name: 'luau', use_luau_configuration: false }".to_string(),
-        _ => "{ name: 'path', use_luau_configuration: false }".to_string(),
+        "luau" => format!("{{ name: 'luau', use_luau_configuration: {} }}", rc),
+        _ => format!("{{ name: 'path', use_luau_configuration: {} }}", rc),
     };
     let generator = match case.c["generator"].as_str() {
         Some(g) if g.starts_with('{') => g.to_string(),
@@ -547,6 +555,25 @@ pub fn main(args: &[String]) -> i32 {
         // the separate module served by the run-time require for computed arguments
         let dyn_text = "LOADS.dyn = (LOADS.dyn or 0) + 1\nreturn {name = \"dyn\"}\n";
         resources.write(format!("{}src/dyn.lua", case.prefix()), dyn_text).expect("write");
+        // aliases: proj/.luaurc; and a DECOY project (same files, `lib` -> ./decoy, whose modules announce themselves) that is
+        // bundled first on the same thread: what a bundling resolves must not depend on what the thread bundled before
+        let mut decoy: Option<Resources> = None;
+        if case.rc() {
+            resources.write("proj/.luaurc", "{ \"aliases\": { \"lib\": \"./src\" } }").expect("write");
+            let d = Resources::from_memory();
+            for (path, text) in files.iter() {
+                let text = text.as_str().unwrap_or("");
+                d.write(path, text).expect("write");
+                if let Some(rest) = path.strip_prefix("proj/src/") {
+                    if path != &case.path(1) {
+                        d.write(format!("proj/decoy/{}", rest), &format!("ext1(\"decoy\")\n{}", text)).expect("write");
+                    }
+                }
+            }
+            d.write("proj/.luaurc", "{ \"aliases\": { \"lib\": \"./decoy\" } }").expect("write");
+            d.write("proj/src/dyn.lua", dyn_text).expect("write");
+            decoy = Some(d);
+        }
         let cfg_text = config_text(&case, &excludes);
         let config: Configuration = match json5::from_str(&cfg_text) {
             Ok(x) => x,
@@ -565,6 +592,13 @@ pub fn main(args: &[String]) -> i32 {
         std::thread::Builder::new()
             .stack_size(256 * 1024 * 1024)
             .spawn(move || {
+                if let Some(d) = decoy {
+                    let _ = guarded(|| {
+                        let config: Configuration = json5::from_str(&cfg2).expect("configuration parsed above");
+                        let config = config.with_location("proj");
+                        darklua_core::process(&d, Options::new(Path::new("proj/src/main.lua")).with_output("out/out.lua").with_configuration(config)).map(|_| ())
+                    });
+                }
                 let r = guarded(|| {
                     let config: Configuration = json5::from_str(&cfg2).expect("configuration parsed above");
                     let config = config.with_location(if rooted { "" } else { "proj" });
